@@ -5,6 +5,8 @@ mod gen;
 mod lanes;
 mod out;
 mod rng;
+mod scen;
+mod simnet;
 
 fn main() {
     // keep panics quiet: they are caught per case and reported as outcomes
